@@ -1,6 +1,7 @@
 #!/bin/sh
 # tools/oneseed.sh <seed-dir-name> [prop] [tier]: apply one stored seed to /repo, run the property's check, undo, regenerate Gen files
 cd /verif
+export VERIF_EVIDENCE_DIR=/verif/.scratch/evidence_seeded   # evidence/ is for runs on the unchanged tree
 name="$1"; prop="${2:-$(echo "$name" | cut -c1-3)}"; tier="${3:-quick}"
 git -C /repo apply "/verif/seeded/$name/patch.diff" || exit 2
 ./check "$prop" "$tier" > "/tmp/oneseed_$name.log" 2>&1; rc=$?
